@@ -42,5 +42,6 @@ fixed('C13', 'ed5a5e9', 'candidate containing a letter whose case mapping is not
 
 fixed('C20', '53ab6ef', 'edit_rules counted a context segment X1 as length 1 although context strings have 2-4 characters: a structure with an X label could survive a length filter and still generate guesses outside the requested bounds', {'structure': 'X1D1', 'options': '--max_length 2', 'guess': 'No.11 (length 5)'}, 'F-C20')
 
+fixed('C17', '9b62e8e', "prince_ling -o FILE aborted in the middle of the list (UnicodeEncodeError from the codec writer) when a capitalised word is not representable in the encoding of the ruleset; stdout went on, so the file was not the list written to stdout", {'ruleset': 'encoding cp1251 / latin-1, alpha word with the micro sign or y-diaeresis, a mask with U at that position', 'cmd': 'prince_ling.py -r R -o FILE'}, 'F-C17b')
 json.dump(F, open('/verif/known_findings.json', 'w'), indent=1)
 print(len(F), 'entries')
